@@ -80,12 +80,45 @@ def configs(tier):
     for nvec in (1, 2):
         out.append(dict(kind="product", law="dot-value", ua="m", ub="cm", shape=[2], dt="float64", nvec=nvec))
     out.append(dict(kind="ctor"))
+    # components assigned after construction (v.z = ..., v.x = ...): every operation must see the current components
+    for late in ("add", "replace"):
+        for nvec in (2, 3):
+            for op in ("add", "mul", "lt", "eq"):
+                for rhs in ("Vector", "float", "Array"):
+                    if op in ("add", "lt", "eq") and rhs == "float":
+                        continue
+                    out.append(dict(kind="lift", op=op, nvec=nvec, rhs=rhs, ua="m", ub=("cm" if rhs != "float" else "dimensionless"),
+                                    shape=[2], dt="float64", late=late))
+            for op in ("neg", "pow2"):
+                out.append(dict(kind="unary", op=op, nvec=nvec, dt="float64", shape=[2], ua="m", late=late))
+            for fn in ("abs", "add"):
+                out.append(dict(kind="numpy", fn=fn, nvec=nvec, ua="m", ub="cm", shape=[2], dt="float64", late=late))
+            out.append(dict(kind="norm", nvec=nvec, ua="m", shape=[2], dt="float64", late=late))
+            for op in ("mul", "div"):
+                out.append(dict(kind="refl", op="r" + op, nvec=nvec, lhs="float", ua="m", shape=[2], dt="float64", late=late))
+        for law in ("dot-value", "cross-value", "lagrange"):
+            out.append(dict(kind="product", law=law, ua="m", ub="cm", shape=[1], dt="float64", late=late))
     return out
 
 
+_LATE = [None]
+
+
 def mkvec(m, name, nvec, shape, dt, unit):
-    from osyris import Vector
+    """A Vector of fresh symbolic components.  With the configuration's `late` option the last component is ADDED after
+    construction ('add': Vector(x, y) then v.z = ...) or the first one is REPLACED after construction ('replace'):
+    operations must see the components the Vector has now."""
+    from osyris import Vector, Array
     comps = [m.array(f"{name}{'xyz'[i]}", tuple(shape), dt) for i in range(nvec)]
+    late = _LATE[0]
+    if late == "add" and nvec >= 2:
+        v = Vector(*comps[:-1], unit=unit)
+        setattr(v, "xyz"[nvec - 1], Array(comps[-1], unit=unit))
+        return v
+    if late == "replace":
+        v = Vector(m.array(f"{name}old", tuple(shape), dt), *comps[1:], unit=unit)
+        v.x = Array(comps[0], unit=unit)
+        return v
     return Vector(*comps, unit=unit)
 
 
@@ -111,6 +144,7 @@ def body(m, cfg):
     from osyris import Array, Vector
     from pint.errors import DimensionalityError
     kind = cfg["kind"]
+    _LATE[0] = cfg.get("late")
     if kind == "ctor":
         x = Array(m.array("x", (2,), "float64"), unit="m")
         try:
@@ -143,11 +177,11 @@ def body(m, cfg):
     m.dtype_tol(dt)
     if kind == "lift":
         op, nvec, rhs, ua, ub = cfg["op"], cfg["nvec"], cfg["rhs"], cfg["ua"], cfg["ub"]
-        tag = f"{op}:{rhs}:n{nvec}"
+        tag = f"{op}:{rhs}:n{nvec}" + (":late-" + cfg["late"] if cfg.get("late") else "")
         v = mkvec(m, "a", nvec, shape, dt, ua)
         if rhs == "Vector":
             w = mkvec(m, "b", nvec, shape, dt, ub)
-            wc = dict(w._xyz)
+            wc = dict(C.vcomps(w))
             bterms = [t for c in wc.values() for t in m.vals(c._array)]
         else:
             if rhs == "Array":
@@ -190,11 +224,11 @@ def body(m, cfg):
         return
     if kind == "refl":
         op, nvec, lk, ua = cfg["op"], cfg["nvec"], cfg["lhs"], cfg["ua"]
-        tag = f"{op}:{lk}:n{nvec}"
+        tag = f"{op}:{lk}:n{nvec}" + (":late-" + cfg["late"] if cfg.get("late") else "")
         v = mkvec(m, "a", nvec, shape, dt, ua)
         k = m.array("k", tuple(shape), "float64") if lk == "ndarray" else m.number("k_0", "int64" if lk == "int" else "float64")
         if op == "rdiv":
-            for c in v._xyz.values():
+            for c in C.vcomps(v).values():
                 for t in m.vals(c._array):
                     m.assume(m.Not(m.eq(t, 0)))
         fa, da = C.fd(ua)
@@ -226,7 +260,7 @@ def body(m, cfg):
         return
     if kind == "unary":
         op, nvec = cfg["op"], cfg["nvec"]
-        tag = f"{op}:n{nvec}"
+        tag = f"{op}:n{nvec}" + (":late-" + cfg["late"] if cfg.get("late") else "")
         v = mkvec(m, "a", nvec, shape, dt, cfg["ua"])
         if op in ("invert", "and", "or", "xor"):
             w = mkvec(m, "b", nvec, shape, dt, cfg["ua"])
@@ -238,11 +272,11 @@ def body(m, cfg):
                 comp_equal(m, "logical op lifts", f"lift:{tag}:{c}", getattr(r, c), want)
             return
         if op in ("pow-1",):
-            for c in v._xyz.values():
+            for c in C.vcomps(v).values():
                 for t in m.vals(c._array):
                     m.assume(m.Not(m.eq(t, 0)))
         if op == "pow0.5":
-            for c in v._xyz.values():
+            for c in C.vcomps(v).values():
                 for t in m.vals(c._array):
                     m.assume(m.ge(t, 0))
         g = {"neg": lambda z: -z, "pow2": lambda z: z ** 2, "pow-1": lambda z: z ** -1, "pow0.5": lambda z: z ** 0.5}[op]
@@ -262,11 +296,11 @@ def body(m, cfg):
         return
     if kind == "numpy":
         fn, nvec, ua, ub = cfg["fn"], cfg["nvec"], cfg["ua"], cfg["ub"]
-        tag = f"np.{fn}:n{nvec}:{'same' if ua == ub else 'mixed'}"
+        tag = f"np.{fn}:n{nvec}:{'same' if ua == ub else 'mixed'}" + (":late-" + cfg["late"] if cfg.get("late") else "")
         v = mkvec(m, "a", nvec, shape, dt, ua)
         w = mkvec(m, "b", nvec, shape, dt, ub)
         if fn == "sqrt":
-            for c in v._xyz.values():
+            for c in C.vcomps(v).values():
                 for t in m.vals(c._array):
                     m.assume(m.ge(t, 0))
         call = {"sqrt": lambda p, q: np.sqrt(p), "abs": lambda p, q: np.abs(p), "negative": lambda p, q: np.negative(p),
@@ -300,7 +334,7 @@ def body(m, cfg):
         return
     if kind == "norm":
         nvec, ua = cfg["nvec"], cfg["ua"]
-        tag = f"norm:n{nvec}"
+        tag = f"norm:n{nvec}" + (":late-" + cfg["late"] if cfg.get("late") else "")
         v = mkvec(m, "a", nvec, shape, dt, ua)
         n = v.norm
         if not m.require(isinstance(n, Array) and tuple(n.shape) == tuple(shape), "norm is an Array of the row shape",
@@ -308,7 +342,7 @@ def body(m, cfg):
             return
         m.require(str(n.unit) == str(v.unit), "norm carries the Vector's unit", key=f"norm-unit:{tag}")
         nv = m.vals(n._array)
-        cs = [m.vals(c._array) for c in v._xyz.values()]
+        cs = [m.vals(c._array) for c in C.vcomps(v).values()]
         fs = []
         for i, t in enumerate(nv):
             ss = sum((m.t(c[i]) * m.t(c[i]) for c in cs[1:]), m.t(cs[0][i]) * m.t(cs[0][i]))
@@ -335,8 +369,8 @@ def _product(m, cfg):
     fb, db = C.fd(ub)
     dprod = U.dim_mul(da, db)
     n = int(np.prod(shape)) if shape else 1
-    A = [[m.t(t) * fa for t in m.vals(c._array)] for c in a._xyz.values()]
-    B = [[m.t(t) * fb for t in m.vals(c._array)] for c in b._xyz.values()]
+    A = [[m.t(t) * fa for t in m.vals(c._array)] for c in C.vcomps(a).values()]
+    B = [[m.t(t) * fb for t in m.vals(c._array)] for c in C.vcomps(b).values()]
 
     def phys(arr):
         """physical (CGS) terms of an osyris Array whose unit must have dimension dprod (or given)."""
@@ -379,7 +413,7 @@ def _product(m, cfg):
     if not m.require(isinstance(c1, Vector) and c1.nvec == 3, "cross returns a 3-Vector", key=f"type:{tag}"):
         return
     C1 = []
-    for comp in c1._xyz.values():
+    for comp in C.vcomps(c1).values():
         v, d = phys(comp)
         if not m.require(d == dprod, "cross carries the product of the operand units", key=f"cross-unit:{tag}",
                          info=str(comp.unit)):
@@ -394,7 +428,7 @@ def _product(m, cfg):
         m.check("a x b equals the determinant formula as physical quantities", m.And(fs), key=f"cross:{tag}")
     elif law == "cross-antisymmetry":
         c2 = b.cross(a)
-        C2 = [phys(comp)[0] for comp in c2._xyz.values()]
+        C2 = [phys(comp)[0] for comp in C.vcomps(c2).values()]
         m.check("a x b = -(b x a)", m.And([m.close(C1[k][i], -C2[k][i], scale=_absprod(m, A, B, i))
                                            for k in range(3) for i in range(n)]), key=f"cross-anti:{tag}")
     elif law == "triple":
